@@ -65,11 +65,13 @@ impl OperationTransformVisitor<'_> {
             return;
         }
 
+        let instrumented = status == Status::Modified;
         if status != Status::NotModified {
             self.transform_status.status = status;
         }
 
-        if self.transform_status.status == Status::Modified {
+        // count a propagation only for the operation that has just been instrumented
+        if instrumented {
             self.transform_status.telemetry.inc(tag);
         }
     }
